@@ -8,6 +8,7 @@ import Just.Model.Syntax
 import Just.Model.Unindent
 import Just.Model.Header
 import Just.Model.Items
+import Just.Model.Cook
 open Lean Just
 
 /-- first entry whose key occurs in `k` (the fake shell's matching rule) -/
@@ -383,6 +384,21 @@ def handleItem (j : Json) : Except String Json := do
       ("rest", toJson rest.length), ("printed", Json.arr (printed.map tkToJson).toArray), ("reparse_same", same)]
   | none => return Json.mkObj [("parse", Json.null)]
 
+def cookErrName : Cook.Err → String
+  | .invalidEscape _ => "InvalidEscapeSequence" | .unicodeDelimiter _ => "UnicodeEscapeDelimiter"
+  | .unicodeEmpty => "UnicodeEscapeEmpty" | .unicodeRange => "UnicodeEscapeRange" | .unicodeLength => "UnicodeEscapeLength"
+  | .unicodeCharacter _ => "UnicodeEscapeCharacter" | .unicodeUnterminated => "UnicodeEscapeUnterminated"
+  | .unwrapFailed => "UNWRAP-FAILED"
+
+/-- {"op":"cook","raw":S,"indented":B,"escapes":B} -/
+def handleCook (j : Json) : Except String Json := do
+  let raw ← j.getObjValAs? String "raw"
+  let indented ← j.getObjValAs? Bool "indented"
+  let escapes ← j.getObjValAs? Bool "escapes"
+  match Cook.cookLiteral indented escapes raw.toList with
+  | .ok cooked => return Json.mkObj [("cooked", String.ofList cooked)]
+  | .error e => return Json.mkObj [("error", cookErrName e)]
+
 def handleUnindent (j : Json) : Except String Json := do
   let src ← j.getObjValAs? String "src"
   return Json.mkObj [("text", String.ofList (Unindent.unindent src.toList))]
@@ -410,6 +426,7 @@ def handle (line : String) : Json :=
       | "shsplit" => handleShSplit j
       | "lex" => handleLex j
       | "header" => handleHeader j
+      | "cook" => handleCook j
       | "item" => handleItem j
       | "unindent" => handleUnindent j
       | "syntax" => handleSyntax j
